@@ -22,6 +22,33 @@ PRIMS = {
                          {"consts": {"K": 8, "Fair": False, "Wk": [1, 2]}, "runs": 200, "len": 300}],
         },
     },
+    "semaphore": {
+        "module": "Semaphore",
+        "obs_trace": "SemObsTrace",
+        "trace_consts": ["K", "Fair", "Init0", "MaxReq"],
+        "trace_cfg_consts": ["K <- TraceK", "Fair <- TraceFair", "Init0 <- TraceInit0", "MaxReq <- TraceMaxReq",
+                             'Wk = {"A", "B"}'],
+        "flavours": ["local", "pl", "vlock", "shared"],
+        "tour_cfgs": {
+            "quick": ["Semaphore.swap-fair.cfg", "Semaphore.swap-unfair.cfg"],
+            "thorough": ["Semaphore.swap-fair.cfg", "Semaphore.swap-unfair.cfg",
+                         "Semaphore.tour-fair.cfg", "Semaphore.tour-unfair.cfg"],
+        },
+        "model_cfgs": {
+            "quick": [],
+            "thorough": ["Semaphore.deep-fair.cfg", "Semaphore.deep-unfair.cfg"],
+        },
+        "random": {
+            "quick": [{"consts": {"K": 5, "Fair": True, "Wk": [1, 2], "Init0": 2, "MaxReq": 3, "Reqs": [0, 1, 2, 3], "MaxP": 4, "MaxRels": 4},
+                       "runs": 20, "len": 200, "flavours": ["local", "shared"]},
+                      {"consts": {"K": 5, "Fair": False, "Wk": [1, 2], "Init0": 1, "MaxReq": 3, "Reqs": [0, 1, 2, 3], "MaxP": 4, "MaxRels": 4},
+                       "runs": 20, "len": 200, "flavours": ["pl", "shared"]}],
+            "thorough": [{"consts": {"K": 8, "Fair": True, "Wk": [1, 2], "Init0": 2, "MaxReq": 4, "Reqs": [0, 1, 2, 3, 4], "MaxP": 6, "MaxRels": 5},
+                          "runs": 200, "len": 400},
+                         {"consts": {"K": 8, "Fair": False, "Wk": [1, 2], "Init0": 1, "MaxReq": 4, "Reqs": [0, 1, 2, 3, 4], "MaxP": 6, "MaxRels": 5},
+                          "runs": 200, "len": 400}],
+        },
+    },
 }
 
 ALL = list(PRIMS.keys())
@@ -31,6 +58,9 @@ PROPS = {
     "C02": {"prims": ["mutex"], "invs": {"mutex": ["C02"]}},
     "C03": {"prims": ["mutex"], "invs": {"mutex": ["C03", "OrdOK"]}},
     "C04": {"prims": ["mutex"], "invs": {"mutex": ["C04", "OrdOK"]}},
+    "C05": {"prims": ["semaphore"], "invs": {"semaphore": ["C05"]}},
+    "C06": {"prims": ["semaphore"], "invs": {"semaphore": ["C06", "OrdOK"]}},
+    "C07": {"prims": ["semaphore"], "invs": {"semaphore": ["C07", "OrdOK"]}},
     "C17": {"prims": ALL, "invs": {p: ["C17"] for p in ALL}},
     "C18": {"prims": ALL, "invs": {p: ["C18"] for p in ALL}},
 }
